@@ -41,7 +41,11 @@ def gen_key(rng, i):
 
 
 def gen_text(rng):
-    alphabet = ["a", "Z", "0", " ", "é", "ß", "슬", "듢", "芬", "\U0001F600", "\U00010348", "\u0000", "߿", "ࠀ", "￿"]
+    # precomposed, astral, boundary code points AND text that is not in any Unicode normal form
+    # (combining marks, conjoining Hangul jamo, compatibility/singleton code points): the key's
+    # bytes are its UTF-8 encoding as is - no normalisation
+    alphabet = ["a", "Z", "0", " ", "é", "ß", "슬", "듢", "芬", "\U0001F600", "\U00010348", "\u0000", "߿", "ࠀ", "￿",
+                "e\u0301", "A\u030a", "\u212b", "\u1112\u1161\u11ab", "\ufb01", "\u2126", "o\u0323\u0302", "\u0344", "\ue188"]
     return "".join(rng.choice(alphabet) for _ in range(rng.randrange(0, 12)))
 
 
